@@ -231,4 +231,8 @@ def run(F, rep):
     from engines import rule_accumulators
     rule_accumulators(F, rep, 'C07.A1', lambda g: g.file.endswith('/importer.cpp'), 3, 'importer.cpp', 'a failure of an earlier import (or the fact that an error is related to the requested item) is forgotten when a later one is fine')
 
+    # ------------------------------------------------------------------ W: walks over the component tree are complete
+    import recursion as _recw
+    _recw.rule_walkers(F, rep, 'C07.W1', ['clearComponentImports', 'getImportedComponents', 'unitsUsed'], 3, 'collecting what has to be imported')
+
 
